@@ -159,6 +159,10 @@ def check_history(job):
                 removed[:] = [x for x in removed if x is not obj]
             else:
                 ret = res
+                # table groups (like projects and sticky notes) have no structural equality: an equal-looking group
+                # that was never added is absent, and deleting it must be refused
+                if isinstance(obj, TableGroup) and not any(obj is g for g in spec['groups']):
+                    fail('deleting a table group that is not contained was accepted', str(op), cls)
                 for key in ('tables', 'refs', 'enums', 'groups'):
                     if any(ret is x for x in spec[key]):
                         spec[key] = [x for x in spec[key] if x is not ret]
